@@ -184,7 +184,7 @@ pub fn arch_big(job: &Value, dir: &str) -> Result<Map<String, Value>, String> {
     let loaded = load_bdd_bundle(&path, g2.symbolic_context())?;
     let mut equal = Map::new();
     for (label, s) in sets.iter() {
-        equal.insert(label.clone(), json!(loaded.get(label).map(|l| l.as_bdd() == s.as_bdd()).unwrap_or(false)));
+        equal.insert(label.clone(), json!(loaded.get(label).map(|l| same_bdd(l.as_bdd(), s.as_bdd())).unwrap_or(false)));
     }
     let mut m = Map::new();
     let mut names_sorted = names.clone();
@@ -199,7 +199,7 @@ pub fn arch_big(job: &Value, dir: &str) -> Result<Map<String, Value>, String> {
     if let Some(probe) = job["probe"].as_str() {
         let a = model_check_extended_formula_dirty(probe, &g, &sets)?;
         let b = model_check_extended_formula_dirty(probe, &g2, &loaded)?;
-        m.insert("probe_equal".into(), json!(a.as_bdd() == b.as_bdd()));
+        m.insert("probe_equal".into(), json!(same_bdd(a.as_bdd(), b.as_bdd())));
     }
     let _ = std::fs::remove_file(&path);
     Ok(m)
